@@ -142,7 +142,13 @@ func Scan(rows Rows, db *DB, mode ScanMode) {
 
 	db.RowsAffected = 0
 
-	switch dest := db.Statement.Dest.(type) {
+	dest := db.Statement.Dest
+	if mapValues, ok := dest.([]map[string]interface{}); ok && update {
+		// rows returned to a create from a slice of maps belong to those maps
+		dest = &mapValues
+	}
+
+	switch dest := dest.(type) {
 	case map[string]interface{}, *map[string]interface{}:
 		if initialized || rows.Next() {
 			columnTypes, _ := rows.ColumnTypes()
@@ -164,6 +170,33 @@ func Scan(rows Rows, db *DB, mode ScanMode) {
 		}
 	case *[]map[string]interface{}:
 		columnTypes, _ := rows.ColumnTypes()
+		if update {
+			// the given maps receive the returned columns of their rows, in order;
+			// nothing is assigned when rows and maps cannot be matched one to one
+			var returned []map[string]interface{}
+			for rows.Next() {
+				prepareValues(values, db, columnTypes, columns)
+
+				db.RowsAffected++
+				db.AddError(rows.Scan(values...))
+
+				mapValue := map[string]interface{}{}
+				scanIntoMap(mapValue, values, columns)
+				returned = append(returned, mapValue)
+			}
+
+			if len(returned) == len(*dest) {
+				for idx, mapValue := range *dest {
+					if mapValue != nil {
+						for k, v := range returned[idx] {
+							mapValue[k] = v
+						}
+					}
+				}
+			}
+			break
+		}
+
 		for initialized || rows.Next() {
 			prepareValues(values, db, columnTypes, columns)
 
